@@ -79,6 +79,7 @@ func c08Sign(c *Ctx, prog *load.Program) {
 	for _, p := range r.Ex.Panics {
 		c.R.Fail("C08-1", "sign/no-panic", PosStr(prog, p.Pos), fmt.Sprintf("a panic (%s) is reachable when {%s}", p.Msg, GuardString(p.Guard)))
 	}
+	indexSafety(c, "C08-1", "sign", pos, r)
 	d, k := symFn("**d.scalar"), symFn("k")
 	e := models.OfBytes(sym.Fn, absint.SubBytes(symBytes("h"), sym.ConstI(0), sym.ConstI(32)))
 	R := sym.Mul(k, models.G)
@@ -267,6 +268,7 @@ func c08Options(c *Ctx, prog *load.Program) {
 			c.R.Fail("C08-3", key, PosStr(prog, p.Pos), fmt.Sprintf("a panic (%s) is reachable when {%s}", p.Msg, GuardString(p.Guard)))
 			return
 		}
+		indexSafety(c, "C08-3", key, pos, r)
 		acc, prob := acceptFormula(r, 1)
 		if prob != "" {
 			c.R.Unknown("C08-3", key, pos, prob)
